@@ -290,7 +290,7 @@ def uni_aave_world(n=4):
     return World("uni+aave", build, roots, fr)
 
 
-def deribit_uni_world(hours=3):
+def deribit_uni_world(hours=3, frozen_bar=0):
     """Hourly option market beside a minutely pool: bars are minutes, the option market is open on the hour only."""
     from . import deribit as db
 
@@ -310,10 +310,13 @@ def deribit_uni_world(hours=3):
     def build():
         m = uni.make_market(pool, data, "uni")
         om = db.make_market(odata)
-        ctx = Ctx("deribit+uni", prices, USD, [UniAdapter(m, ranges), db.DeribitAdapter(om, odata)], [(uni.USDC, 10000), (uni.WETH, 5), (db.ETH, 4)],
+        ctx = Ctx(name, prices, USD, [UniAdapter(m, ranges), db.DeribitAdapter(om, odata)], [(uni.USDC, 10000), (uni.WETH, 5), (db.ETH, 4)],
                   data.index)
-        _begin(ctx, 0)
+        _begin(ctx, frozen_bar)
         return ctx
 
+    name = "deribit+uni" if frozen_bar % 60 == 0 else "deribit+uni(closed)"
     roots = ((), ("deribit.deposit[part]", "deribit.buy[C1,2,market]"), ("uni.add[in,part,part]", "deribit.deposit[part]", "deribit.buy[P1,1,market]"))
-    return World("deribit+uni", build, roots, {"uni.data": data, "deribit.data": odata, "prices": prices})
+    if frozen_bar % 60 != 0:
+        roots = ((), ("deribit.deposit[part]",))  # frozen between two hours: the option market is closed, every write must be refused and change nothing
+    return World(name, build, roots, {"uni.data": data, "deribit.data": odata, "prices": prices})
